@@ -85,7 +85,7 @@ pub fn run(ctx: &mut Ctx) {
     let (mut is, names) = new_iset();
     let cache = sorted_cache(&is);
     let judge = Judge { frame: true, reference: true };
-    let random_per_instr = ctx.n(1500, 40000);
+    let random_per_instr = ctx.n(6000, 200000);
     let mut case: u64 = 0;
     for (ni, name) in SCALAR.iter().enumerate() {
         if !names.iter().any(|n| n == name) {
